@@ -355,6 +355,11 @@ func (e *Exec) applyContract(s *State, ins ssa.Instruction, fc *FuncContract, si
 			}
 		}
 		vars[rn] = specVar{v, rs.At(i).Type()}
+		if i == rs.Len()-1 && rs.At(i).Type().String() == "error" {
+			if _, have := vars["err"]; !have {
+				vars["err"] = specVar{v, rs.At(i).Type()}
+			}
+		}
 	}
 	for _, en := range fc.Ensures {
 		s.assume(sub.evalWith(e, en, s, pre, vars))
@@ -674,8 +679,13 @@ func (e *Exec) makeInterface(s *State, x *ssa.MakeInterface) Value {
 	i := TS.Fresh("iface", "Iface")
 	s.assume(Eq(App("dyn", "Int", i), IntLit(int64(e.v.typeTag(t)))))
 	s.assume(Not(Eq(i, ifaceNil())))
-	bx := e.unbox(i, t)
-	zipLeaves(bx, v, func(a, b *Node) *Node { s.assume(Eq(a, b)); return a })
+	func() {
+		defer func() { recover() }() // interior pointers and other non-flattenable payloads: identity only
+		bx := e.unbox(i, t)
+		var eqs []*Node
+		zipLeaves(bx, v, func(a, b *Node) *Node { eqs = append(eqs, Eq(a, b)); return a })
+		s.assume(And(eqs...))
+	}()
 	return i
 }
 
